@@ -128,6 +128,8 @@ def do_check(prop, pid, tier, seed, a, scratch, t0):
             continue
         if not m.get("n_obligations"):
             errors.append("%s: zero obligations" % q)
+        elif not q.startswith("lemma:") and m.get("names") and not any(("/ensures[" in n_) or ("/raises[" in n_) or ("/frame[" in n_) for n_ in m["names"]):
+            errors.append("%s: no postcondition obligation at all (a contract without `ensures` proves nothing about the result)" % q)
         all_results += m["results"]
 
     # obligations of a shared function that state another property's claim are left to that property's check (listed in the evidence)
@@ -142,6 +144,9 @@ def do_check(prop, pid, tier, seed, a, scratch, t0):
         cans = m.get("canaries") or []
         if cans and all(c[2] == "unreachable" for c in cans):
             errors.append("%s: every exit path is unreachable (inconsistent hypotheses)" % q)
+        rets = [c for c in cans if c[0] == "return"]
+        if rets and all(c[2] == "unreachable" for c in rets):
+            errors.append("%s: every normal-return path is unreachable (inconsistent hypotheses on the normal path)" % q)
         b = baseline.get("functions", {}).get(q)
         if b and m.get("fingerprint") == b["fingerprint"] and m.get("n_obligations") is not None and not a.only:
             if m["n_obligations"] != b["n_obligations"] and baseline.get("contracts_hash") == contracts_hash():
